@@ -2,6 +2,9 @@ package rt
 
 import (
 	"fmt"
+
+	colarspb "github.com/open-telemetry/otel-arrow/api/experimental/arrow/v1"
+
 	"sort"
 	"strings"
 	"testing"
@@ -36,6 +39,38 @@ func witness(h *History, k int, o OptSet, extra map[string]any) map[string]any {
 func roundTripHistory(c *vc.Case, h *History, o OptSet, prop string) *Stream {
 	s := NewStream(o)
 	containers := 0
+	// How far the producer runs ahead of the consumer: 0 = lock step, 1 = one batch ahead,
+	// 1<<30 = the whole history is encoded before anything is decoded. A returned
+	// BatchArrowRecords must stay valid while later batches are encoded (it is NOT cloned here).
+	ahead := []int{0, 0, 1, 1 << 30}[c.R.IntN(4)]
+	c.Seen("producer_lead_modes", fmt.Sprint(min(ahead, 2)))
+	type pending struct {
+		k    int
+		want *canon.Set
+		bar  *colarspb.BatchArrowRecords
+	}
+	var queue []pending
+	dead := false
+	decode := func(p pending) bool {
+		got, _, err, pi := s.Decode(h.Batches[p.k].Sig, p.bar)
+		lead := fmt.Sprintf(" (producer lead %d)", min(ahead, 2))
+		if ahead == 0 {
+			lead = ""
+		}
+		if pi != nil {
+			c.ViolationFor(prop, "consumer "+pi.Signature()+lead, pi.Value+"\n"+clip(pi.Stack, 3000), witness(h, p.k, o, map[string]any{"producer_lead": ahead}))
+			return false
+		}
+		if err != nil {
+			c.ViolationFor(prop, "consumer error on well-formed batch"+lead+": "+clip(stripNums(err.Error()), 100), err.Error(), witness(h, p.k, o, map[string]any{"producer_lead": ahead}))
+			return false
+		}
+		if d := canon.Compare(p.want, got); d != nil {
+			reportDiff(c, prop, d, witness(h, p.k, o, map[string]any{"diffs": d.Concrete, "producer_lead": ahead}))
+			c.Count("mismatching_batches", 1)
+		}
+		return true
+	}
 	for k, b := range h.Batches {
 		want, err := b.Canon()
 		if err != nil {
@@ -55,25 +90,32 @@ func roundTripHistory(c *vc.Case, h *History, o OptSet, prop string) *Stream {
 		c.Count("items", int64(len(want.Items)))
 		if pi != nil {
 			c.ViolationFor(prop, "producer "+pi.Signature(), pi.Value+"\n"+clip(pi.Stack, 3000), witness(h, k, o, nil))
-			break // producer state is undefined after a panic
+			dead = true // producer state is undefined after a panic
+			break
 		}
 		if err != nil {
 			c.ViolationFor(prop, "producer error on valid input: "+clip(stripNums(err.Error()), 100), err.Error(), witness(h, k, o, nil))
+			dead = true
 			break
 		}
-		got, _, err, pi := s.Decode(b.Sig, bar)
-		if pi != nil {
-			c.ViolationFor(prop, "consumer "+pi.Signature(), pi.Value+"\n"+clip(pi.Stack, 3000), witness(h, k, o, nil))
+		queue = append(queue, pending{k, want, bar})
+		for len(queue) > ahead {
+			ok := decode(queue[0])
+			queue = queue[1:]
+			if !ok {
+				dead = true
+				break
+			}
+		}
+		if dead {
 			break
 		}
-		if err != nil {
-			c.ViolationFor(prop, "consumer error on well-formed batch: "+clip(stripNums(err.Error()), 100), err.Error(), witness(h, k, o, nil))
+	}
+	for !dead && len(queue) > 0 {
+		if !decode(queue[0]) {
 			break
 		}
-		if d := canon.Compare(want, got); d != nil {
-			reportDiff(c, prop, d, witness(h, k, o, map[string]any{"diffs": d.Concrete}))
-			c.Count("mismatching_batches", 1)
-		}
+		queue = queue[1:]
 	}
 	s.Close()
 	// shape fingerprint and observations
